@@ -621,6 +621,11 @@ class Interp:
             if it is None:
                 raise Unsupported(f'unpacking object {v.cls}')
             items = self.iterate_concrete(self.call_function(it, [v], {}))
+        elif (isinstance(v, z3.DatatypeRef) and v.sort().num_constructors() == 1
+              and v.sort().constructor(0).arity() == n):
+            # a symbolic tuple (single-constructor datatype of the right arity): the items are its projections
+            srt = v.sort()
+            items = [srt.accessor(0, i)(v) for i in range(n)]
         else:
             raise Unsupported(f'unpacking {type(v).__name__} at line {node.lineno}')
         if len(items) != n:
